@@ -118,17 +118,21 @@ func VerifC03Validate() {
 func VerifC03EntryPoints() {
 	ctx := context.Background()
 	t0 := vf.Now()
+	vf.ShortScenario(t0, time.Second)
 	req, c := vfC03Request(t0)
 	st := &vfCountingStore{}
 	vfs.StoreRoots(ctx, &st.Storage, t0)
 	vf.Assume(vf.Or(len(c.nonce) == 0, len(c.nonce) == nodeenrollment.NonceSize)) // node-led requests; tokens and wrapped info are C01/C06
-	valid := vf.And(vf.And(c.sigIsGenuine, vf.And(c.certType == int(types.KEYTYPE_ED25519), c.encType == int(types.KEYTYPE_X25519))),
-		vf.And(vf.And(len(c.nonce) > 0, len(c.encPub) > 0), vf.And(vf.TimeLE(c.nb.Add(-5*time.Minute), t0), vf.TimeLE(t0.Add(time.Second), c.na.Add(5*time.Minute)))))
-	invalid := vf.Not(vf.And(vf.And(c.sigIsGenuine, vf.And(c.certType == int(types.KEYTYPE_ED25519), c.encType == int(types.KEYTYPE_X25519))),
-		vf.And(vf.And(len(c.nonce) > 0, len(c.encPub) > 0), vf.And(vf.TimeLE(c.nb.Add(-5*time.Minute), t0.Add(time.Second)), vf.TimeLE(t0, c.na.Add(5*time.Minute))))))
+	// the server's configured skews apply on either entry point
+	nbSkew := vf.Dur("nbskew", -100000000000000, 100000000000000)
+	naSkew := vf.Dur("naskew", -100000000000000, 100000000000000)
+	opts := []nodeenrollment.Option{nodeenrollment.WithNotBeforeClockSkew(nbSkew), nodeenrollment.WithNotAfterClockSkew(naSkew)}
+	shape := vf.And(vf.And(c.sigIsGenuine, vf.And(c.certType == int(types.KEYTYPE_ED25519), c.encType == int(types.KEYTYPE_X25519))), vf.And(len(c.nonce) > 0, len(c.encPub) > 0))
+	// certainly inside / possibly inside the widened window, whatever instant within the scenario the library reads
+	valid := vf.And(shape, vf.And(vf.TimeLE(c.nb.Add(nbSkew), t0), vf.TimeLE(t0.Add(time.Second), c.na.Add(naSkew))))
+	invalid := vf.Not(vf.And(shape, vf.And(vf.TimeLE(c.nb.Add(nbSkew), t0.Add(time.Second)), vf.TimeLE(t0, c.na.Add(naSkew)))))
 	if vf.Bool("via-authorize") {
-		_, err := AuthorizeNode(ctx, st, req)
-		vf.Assume(vf.TimeLE(vf.Now(), t0.Add(time.Second)))
+		_, err := AuthorizeNode(ctx, st, req, opts...)
 		if err != nil {
 			vf.Reach("authorize-rejected")
 			vf.Assert("rejected-authorize-writes-nothing", st.Count(vfs.KindNode) == 0)
@@ -138,10 +142,10 @@ func VerifC03EntryPoints() {
 		vf.Assert("invalid-request-never-reaches-authorization", vf.Implies(invalid, vf.And(err != nil, st.ops == 0)))
 		vf.Assert("valid-request-is-authorized", vf.Implies(vf.And(valid, len(c.encPub) == 32), err == nil))
 	} else {
-		resp, err := FetchNodeCredentials(ctx, st, req)
-		vf.Assume(vf.TimeLE(vf.Now(), t0.Add(time.Second)))
+		resp, err := FetchNodeCredentials(ctx, st, req, opts...)
 		vf.Reach("fetch-done")
 		vf.Assert("invalid-request-never-reaches-a-lookup", vf.Implies(invalid, vf.And(err != nil, st.ops == 0)))
+		vf.Assert("valid-request-reaches-the-lookup", vf.Implies(valid, vf.And(err == nil, st.ops > 0)))
 		if err == nil {
 			vf.Assert("unauthorized-fetch-is-empty", len(resp.EncryptedNodeCredentials) == 0)
 		}
